@@ -397,7 +397,7 @@ fn run_worker_binary(cmd: &mut Command) -> Result<BTreeMap<usize, BTreeMap<Strin
         }
     }
     if !out.status.success() {
-        return Err(format!("worker exited with {:?}: {}", out.status.code(), stderr.lines().filter(|l| l.contains("Undefined Behavior") || l.contains("error")).take(5).collect::<Vec<_>>().join(" | ")));
+        return Err(format!("worker exited with {:?}: {}", out.status.code(), stderr.lines().filter(|l| l.contains("Undefined Behavior") || l.contains("error") || l.starts_with("==")).take(5).collect::<Vec<_>>().join(" | ")));
     }
     Ok(m)
 }
@@ -418,7 +418,7 @@ fn main() {
          non-trivial = the fault removes / changes something the circuit consumes; distinct by (consumer class, fault, \
          scenario index)",
     );
-    rep.assume("profiles compared: release (opt, no debug assertions) vs dev (opt-level 1, debug assertions on); Miri sample in the thorough tier");
+    rep.assume("profiles compared: release (opt, no debug assertions) vs dev (opt-level 1, debug assertions on); Miri sample (quick 8, thorough 64 scenarios) and a valgrind memcheck sample of the release binary (thorough 256 scenarios, incl. Goldilocks which Miri skips)");
     let n = args.tier.pick(400usize, 12_000usize);
     let seed = args.seed;
     // release outcomes (this process)
@@ -552,6 +552,57 @@ fn main() {
                 rep.add(CaseResult::violated("miri", "miri-undefined-behaviour", json!({"seed": seed, "stderr": e})));
             }
             Err(e) => rep.add(CaseResult::inconclusive("miri", format!("miri run failed: {e}"))),
+        }
+    }
+    // valgrind memcheck sample of the optimized binary itself (thorough tier, or `--memcheck N`):
+    // covers the Goldilocks scenarios Miri has to skip and the code the optimizer actually emitted.
+    // Memcheck sees heap out-of-bounds and uninitialised-value use only; reading the payload of a
+    // `None` through `unwrap_unchecked` is invisible to it (that is what the Miri sample is for).
+    let vg_n: usize = args.extra.get("memcheck").and_then(|s| s.parse().ok()).unwrap_or(args.tier.pick(0, 256));
+    if vg_n > 0 {
+        let shards = args.threads.clamp(1, 16);
+        let per = vg_n.div_ceil(shards);
+        let results: Vec<Result<BTreeMap<usize, BTreeMap<String, String>>, String>> = std::thread::scope(|s| {
+            let hs: Vec<_> = (0..shards)
+                .map(|k| {
+                    let exe = exe.clone();
+                    s.spawn(move || {
+                        let (a, b) = (k * per, ((k + 1) * per).min(vg_n));
+                        if a >= b {
+                            return Ok(BTreeMap::new());
+                        }
+                        run_worker_binary(Command::new("valgrind").args(["-q", "--error-exitcode=97"]).arg(&exe).args([
+                            "--worker", "1", "--seed", &seed.to_string(), "--from", &a.to_string(), "--to", &b.to_string(),
+                        ]))
+                    })
+                })
+                .collect();
+            hs.into_iter().map(|h| h.join().unwrap()).collect()
+        });
+        for r in results {
+            match r {
+                Ok(m) => {
+                    rep.bump("memcheck-scenarios-executed", m.len() as u64);
+                    for (idx, outs) in m {
+                        for (fault, o) in outs {
+                            let r = rel.iter().find(|r| r.0 == idx).and_then(|r| r.2.get(&fault));
+                            if r.is_some_and(|r| *r != o) {
+                                rep.add(CaseResult::violated(
+                                    format!("memcheck:{idx}:{fault}"),
+                                    format!("profile-divergence-memcheck/{fault}"),
+                                    json!({"seed": seed, "idx": idx, "fault": fault, "release": r, "memcheck": o}),
+                                ));
+                            } else {
+                                rep.add(CaseResult::held(format!("memcheck:{idx}:{fault}"), true).count("memcheck-agreed", 1));
+                            }
+                        }
+                    }
+                }
+                Err(e) if e.contains("Some(97)") => {
+                    rep.add(CaseResult::violated("memcheck", "memcheck-error", json!({"seed": seed, "stderr": e})));
+                }
+                Err(e) => rep.add(CaseResult::inconclusive("memcheck", format!("valgrind run failed: {e}"))),
+            }
         }
     }
     rep.finish(args.tier.pick(800, 20_000));
